@@ -111,6 +111,7 @@ def run(ctx):
         ctx.ob("A3.SPACE-CHECK", name, a3, "write dominated by a free-space comparison" if a3 else
                "%s writes the cell without comparing the needed size with the free space" % name, w.loc())
     split_pairing(ctx)
+    value_after_new_varint(ctx)
 
 
 def split_pairing(ctx):
@@ -170,3 +171,41 @@ def _same_local(f, a, b, depth=4):
             x = q[0]
         return x
     return root(a) == root(b)
+
+
+def value_after_new_varint(ctx):
+    """A6 VALUE-AFTER-NEW-VARINT: a leaf cell is key | varint(value length) | value.  Readers find the value right behind the varint
+    they decode, so every writer that (re)encodes the length must place the value bytes at an offset that depends on the size of the
+    varint it has just written (encode_varint's return value or varint_len of the new length) — not on the size of an older varint."""
+    import dmlrules
+    from paths import source_call
+    m = ctx.m
+    n = 0
+    for f in sorted(m.fns.values(), key=lambda f: f.id):
+        if not (f.id.startswith("btree::leaf::LeafNodeMut::") or f.id.startswith("btree::tree::BTree::")) or f.kind == "closure":
+            continue
+        encs = [c for c in f.calls if c.name.endswith("encoding::varint::encode_varint")]
+        if not encs:
+            continue
+        sizes = {c.dest[0] for c in f.calls if c.dest is not None and (c.name.endswith("encoding::varint::encode_varint") or c.name.endswith("encoding::varint::varint_len"))}
+        copies = [c for c in f.calls if c.name.endswith("::copy_from_slice")]
+        for e in encs:
+            # the first copy_from_slice that follows this encode on the straight path: the value bytes
+            after = [c for c in copies if f.dominates(e.bb, c.bb) and c.bb != e.bb]
+            if not after:
+                continue
+            c = min(after, key=lambda c: (c.line, c.bb))
+            n += 1
+            pl = operand_place(c.args[0])
+            src = source_call(f, pl[0]) if pl is not None and not pl[1] else None
+            ok = False
+            if src is not None and "IndexMut" in src.name and len(src.args) >= 2:
+                q = operand_place(src.args[1])
+                if q is not None:
+                    ok = bool(dmlrules._deps(f, q[0]) & sizes)
+            short = f.id.split("::")[2].split("<")[0] + "::" + f.id.rsplit("::", 1)[-1]
+            ctx.ob("A6.VALUE-AFTER-NEW-VARINT", "%s@%d" % (short, [x for x in encs].index(e)), ok,
+                   "the value is written behind the varint just encoded" if ok else
+                   "%s re-encodes the value length but places the value bytes at an offset that does not depend on the size of the new varint: when the "
+                   "varint gets shorter the value lands past the position readers compute" % short, c.loc())
+    ctx.floor("A6.encode_then_copy_sites", n, 3)
